@@ -128,3 +128,11 @@ Theorem from_hdf5_unknown_axis_is_source : forall f a,
   BiomV.Gen.Hdf5ReadGen.from_hdf5_gen f a = RErr E_UNKNOWN.
 Proof. exact BiomV.Proofs.GenBridgeHdf5ReadProofs.from_hdf5_unknown_axis_is_source. Qed.
 Print Assumptions from_hdf5_unknown_axis_is_source.
+
+(* the nested axis_load of the reader, regenerated too (ids, the parser defaults table, the rows,
+   all-empty metadata -> None, group metadata; the category loop is the pinned primitive md_loop),
+   is the hand-written axis_load; the empty list is the parse_fs of the three load paths *)
+Theorem axis_load_is_source : forall f a,
+  BiomV.Gen.Hdf5ReadGen.axis_load_gen f [] [a] = axis_load f a.
+Proof. exact BiomV.Proofs.GenBridgeHdf5ReadProofs.axis_load_is_source. Qed.
+Print Assumptions axis_load_is_source.
